@@ -52,11 +52,15 @@ pub open spec fn http_like(endpoint: Seq<char>) -> bool {
 pub struct SubscriptionName { pub x: u64 }
 pub struct TopicName { pub x: u64 }
 impl SubscriptionName {
+    #[verifier::external_body]
+    pub fn subscription_id(&self) -> (r: &str) { unimplemented!() }
     // `Display for SubscriptionName` (src/subscriptions/subscription_name.rs); to_string comes from std's blanket impl
     #[verifier::external_body]
     pub fn to_string(&self) -> (r: String) ensures r@ == display_sub(*self) { unimplemented!() }
 }
 impl TopicName {
+    #[verifier::external_body]
+    pub fn topic_id(&self) -> (r: &str) { unimplemented!() }
     #[verifier::external_body]
     pub fn to_string(&self) -> (r: String) ensures r@ == display_topic(*self) { unimplemented!() }
 }
@@ -129,6 +133,29 @@ pub mod subscriptions {
     }
     /// TRUSTED (A-STUB): mirror of the two fields of `Subscription` the mapping reads
     pub struct Subscription { pub name: SubscriptionName, pub topic: WeakTopic }
+//@item src/subscriptions/errors.rs enum GetSubscriptionError drop-derive=thiserror::Error,Debug strip-attr=error
+    /// TRUSTED (A-STUB): the manager's lookup (its map operations are under contract in bundle B4)
+    pub struct SubscriptionManager { pub x: u64 }
+    impl SubscriptionManager {
+        pub uninterp spec fn lookup(&self, name: SubscriptionName) -> Result<Arc<Subscription>, GetSubscriptionError>;
+        #[verifier::external_body]
+        pub fn get_subscription(&self, name: &SubscriptionName) -> (r: Result<Arc<Subscription>, GetSubscriptionError>)
+            ensures r == self.lookup(*name)
+        { unimplemented!() }
+    }
+}
+pub mod topics {
+    use super::*;
+    pub use super::subscriptions::Topic;
+//@item src/topics/errors.rs enum GetTopicError drop-derive=thiserror::Error,Debug strip-attr=error
+    pub struct TopicManager { pub x: u64 }
+    impl TopicManager {
+        pub uninterp spec fn lookup(&self, name: TopicName) -> Result<Arc<Topic>, GetTopicError>;
+        #[verifier::external_body]
+        pub fn get_topic(&self, name: &TopicName) -> (r: Result<Arc<Topic>, GetTopicError>)
+            ensures r == self.lookup(*name)
+        { unimplemented!() }
+    }
 }
 
 /// attribute map stored in a push configuration (None is the empty map)
@@ -197,6 +224,23 @@ pub mod subscriber {
             })
     }
 
+    use super::subscriptions::{GetSubscriptionError, SubscriptionManager};
+//@fn src/api/subscriber.rs conflict tags=C10
+//@ ret r
+//@ ensures[C10] r.code == Code::FailedPrecondition
+//@end
+//@fn src/api/subscriber.rs subscription_not_found tags=C10
+//@ ret r
+//@ ensures[C10] r.code == Code::NotFound
+//@end
+//@fn src/api/subscriber.rs get_subscription tags=C10 keep-paths=1
+//@ ret r
+//@ # C10: pull, ack, modify and delete look the subscription up through this helper: an absent name is NOT_FOUND
+//@ ensures[C10] (match subscription_manager.lookup(*subscription_name) { Ok(s) => r == Ok::<Arc<crate::subscriptions::Subscription>, Status>(s), Err(GetSubscriptionError::DoesNotExist) => err_code(r) == Some(Code::NotFound), Err(GetSubscriptionError::Closed) => err_code(r) == Some(Code::Internal) })
+//@ closure 1 ret st: Status
+//@ closure 1 ensures (match $1 { GetSubscriptionError::DoesNotExist => st.code == Code::NotFound, GetSubscriptionError::Closed => st.code == Code::Internal })
+//@end
+
 //@fn src/api/subscriber.rs map_to_subscription_resource tags=C10 keep-paths=1
 //@ ret r
 //@ # C10: a subscription read back reports its name, its topic (C11: the sentinel once the topic is deleted), ...
@@ -215,6 +259,31 @@ pub mod subscriber {
 //@ closure 4 ret m: AuthenticationMethod
 //@ closure 4 ensures (match m { AuthenticationMethod::OidcToken(o) => o.audience@ == $1.audience@ && o.service_account_email@ == $1.service_account_email@ })
 //@end
+}
+
+// ======================================================================================
+// src/api/publisher.rs: topic lookup used by publish / get / delete / list-subscriptions handlers
+pub mod publisher {
+    use super::*;
+    use super::topics::{GetTopicError, TopicManager};
+    pub struct PublisherService { pub topic_manager: Arc<TopicManager> }
+//@fn src/api/publisher.rs conflict tags=C10
+//@ ret r
+//@ ensures[C10] r.code == Code::FailedPrecondition
+//@end
+//@fn src/api/publisher.rs topic_not_found tags=C10
+//@ ret r
+//@ ensures[C10] r.code == Code::NotFound
+//@end
+    impl PublisherService {
+//@fn src/api/publisher.rs PublisherService::get_topic_internal tags=C10 keep-paths=1
+//@ ret r
+//@ # C10: an absent topic name is NOT_FOUND
+//@ ensures[C10] (match self.topic_manager.lookup(*topic_name) { Ok(t) => r == Ok::<Arc<crate::topics::Topic>, Status>(t), Err(GetTopicError::DoesNotExist) => err_code(r) == Some(Code::NotFound), Err(GetTopicError::Closed) => err_code(r) == Some(Code::Internal) })
+//@ closure 1 ret st: Status
+//@ closure 1 ensures (match $1 { GetTopicError::DoesNotExist => st.code == Code::NotFound, GetTopicError::Closed => st.code == Code::Internal })
+//@end
+    }
 }
 
 //@tags C10
